@@ -1,7 +1,7 @@
 (* C12 — correspondence / property evaluation on histories observed on the
    implementation.  Executable only. *)
 From Coq Require Import List ZArith Bool.
-From GZ Require Export Lib.CheckLib C12.Model C12.Concrete C12.Api C12.Client.
+From GZ Require Export Lib.CheckLib C12.Model C12.Concrete C12.Api C12.Client C12.Lin.
 From GZ Require C16.ModelW.
 Import ListNotations.
 Open Scope Z_scope.
@@ -19,7 +19,9 @@ Inductive case :=
 | CCache (limit n i : Z) (h : list (kop * kobs))
 (* another client (the cache cleaner): requests and callbacks per driver step, and the
    ids of the tasks the cleaner invoked during the step *)
-| CTrace (n i : Z) (segs : list (list op * fired * list Z)).
+| CTrace (n i : Z) (segs : list (list op * fired * list Z))
+(* free-running goroutines: stamped calls (all accepted) and ticks with their callbacks *)
+| CFree (n i : Z) (ops : list ev) (ticks : list tk).
 
 Definition canon (fs : list fired) : list fired := map sort_pairs fs.
 
@@ -135,6 +137,7 @@ Definition agrees (c : case) : bool :=
     let t := concat (map (fun s => fst (fst s)) segs) in
     list_eqb pairs_eqb (canon (run (init n i) t)) (canon (crun (cinit n i) t))
     && trace_ok i [] (map fst segs)
+  | CFree n i ops ticks => free_ok i ops ticks
   end.
 
 (* the property, on the implementation's own observations *)
@@ -158,6 +161,8 @@ Definition prop_ok (c : case) : bool :=
          (* every callback of the wheel is one invocation of that task, and vice versa *)
          && forallb (fun s => zs_eqb (sort_z (map fst (snd (fst s)))) (sort_z (snd s))) segs
     else true
+  | CFree n i ops ticks =>
+    if free_in_scope i ops then (1 <=? n) && (1 <=? i) && free_ok i ops ticks else true
   end.
 
 Definition model_obs (c : case) : list fired :=
@@ -166,4 +171,5 @@ Definition model_obs (c : case) : list fired :=
   | CNew _ _ _ _ _ _ => []
   | CCache limit n i h => canon (run (init n i) (concat (map (fun ob => otrace (snd ob)) h)))
   | CTrace n i segs => canon (run (init n i) (concat (map (fun s => fst (fst s)) segs)))
+  | CFree n i ops ticks => canon (run (init n i) (map snd ops))
   end.
